@@ -327,3 +327,69 @@ class Report:
               % (self.prop, len(self.obs), cov['discharged_structurally'], cov['discharged_by_review'],
                  len(known), len(viol), wall))
         return rc
+
+
+class VariantReport:
+    """Forwards obligations of an additional feature-set analysis into the main report.  Floors and
+    missing anchors are not failures there (the functions may be compiled out); obligations whose
+    (rule, key) already exists in the main report with the same status are not duplicated."""
+
+    def __init__(self, main, label):
+        self.main = main
+        self.label = label
+        self.tables = main.tables
+        self.tier = main.tier
+        self.prop = main.prop
+        self.seen = {(o.rule, o.key): o.status for o in main.obs}
+        self.added = 0
+        self.same = 0
+
+    def rule(self, rid, doc):
+        if rid not in self.main.rule_docs:
+            self.main.rule(rid, doc)
+
+    def _fwd(self, ob):
+        before = self.seen.get((ob.rule, ob.key))
+        ob.detail = '[features=%s] %s' % (self.label, ob.detail)
+        tmp = Report(self.prop, self.tier, self.tables)
+        tmp.add(ob)
+        if before is not None and before == ob.status:
+            self.same += 1
+            return ob
+        self.main.obs.append(ob)
+        self.main.used_reviewed |= tmp.used_reviewed
+        self.seen[(ob.rule, ob.key)] = ob.status
+        self.added += 1
+        return ob
+
+    def add(self, ob):
+        return self._fwd(ob)
+
+    def add_raw(self, rule, key, status, detail='', loc=''):
+        ob = Ob(rule, key, status == 'ok', detail, loc)
+        before = self.seen.get((rule, key))
+        if before == ob.status:
+            self.same += 1
+            return ob
+        ob.detail = '[features=%s] %s' % (self.label, ob.detail)
+        self.main.obs.append(ob)
+        self.added += 1
+        return ob
+
+    def ok(self, rule, key, detail='', loc='', why='', nontrivial=True):
+        return self._fwd(Ob(rule, key, True, detail, loc, why, nontrivial))
+
+    def bad(self, rule, key, detail='', loc=''):
+        return self._fwd(Ob(rule, key, False, detail, loc))
+
+    def check(self, rule, key, cond, detail='', loc='', why=''):
+        return self._fwd(Ob(rule, key, bool(cond), detail, loc, why if cond else ''))
+
+    def note(self, s):
+        self.main.note('[features=%s] %s' % (self.label, s))
+
+    def floor(self, *a, **k):
+        pass
+
+    def cannot_decide(self, why):
+        self.main.note('[features=%s] not decided there: %s' % (self.label, why))
